@@ -457,6 +457,10 @@ class Body:
                         nxt |= self.orig_operand(self.facts.operand(ops[idx]), _seen, live)
                         continue
                 if p[0] == 'd':
+                    # `from_residual` builds None / Err(..): it has no Some / Ok payload to project
+                    if c.kind == 'call' and not c.path and p[1] in ('Some', 'Ok') and c.key in self.calls and self.calls[c.key].qname == 'std::ops::FromResidual::from_residual' \
+                            and (self.calls[c.key].dest_ty or '').startswith(('std::option::Option', 'std::result::Result')):
+                        continue
                     nxt.add(Origin(c.kind, c.key, c.path + (('d', p[1]),)))
                 elif p[0] == 'f':
                     nxt.add(Origin(c.kind, c.key, c.path + (('f', p[2]),)))
@@ -1028,12 +1032,23 @@ class Facts:
             return [x for x in self.bodies.values() if x.impl_trait == tr and x.name == call.name and x.kind == 'AssocFn']
         return []
 
-    def accessor_summary(self, call):
+    def accessor_summary(self, call, depth=0):
         """A local function whose whole body is `&self.field` (or a copy of it) is a projection:
         returns (argument index, path) or None."""
         cb = self.callee_body(call)
         if cb is None:
+            # a method of a crate-local trait called on a type parameter (`dst.as_node()` with `dst: &impl GraphNode`): a projection if every
+            # implementation is the same projection
+            if call.trait and call.local and depth == 0:
+                cands = self.callee_candidates(call)
+                if cands:
+                    sums = {self._accessor_of_body(x) for x in cands}
+                    if len(sums) == 1 and None not in sums:
+                        return next(iter(sums))
             return None
+        return self._accessor_of_body(cb)
+
+    def _accessor_of_body(self, cb):
         if not hasattr(self, '_acc'):
             self._acc = {}
         if cb.id in self._acc:
